@@ -501,8 +501,270 @@ def j_c07(case, resps):
     return out
 
 
-STAGE2 = {"logexp": s2_logexp, "c04": s2_c04}
-JUDGES = {"c07": j_c07, "c04": j_c04, "c01": j_c01, "c02": j_c02, "c03a": j_c03_explog, "c03b": j_c03_logexp2,
+# ------------------------------------------------------------------ algorithms
+def _rel_angle(g, grp, TA, TB):
+    return rot_angle_of_tangent(grp, [float(x) for x in g.log(mp.inverse(TA) * TB)])
+
+
+def j_c15(case, resps):
+    """end points, rejection outside [0,1], SLERP = geodesic"""
+    g = REG[case["group"]]
+    grp = case["group"]
+    A, B = case["A"], case["B"]
+    TA, TB = g.T(mpl(A)), g.T(mpl(B))
+    s = lin_scale(grp, A, B)
+    tol = 1e-9 * s * s
+    out = []
+    if _rel_angle(g, grp, TA, TB) > math.pi - 1e-3:
+        return out
+    for (nm, t, expect), line, r in zip(case["plan"], case["reqs"], resps):
+        v, e = parse(r)
+        if expect == "raise":
+            if v is not None:
+                out.append(V("C15", grp, nm, "status", case["tags"], line, "t=%r outside [0,1] (or unsupported degree) accepted" % t, float("inf"), 0))
+            continue
+        if v is None or not fin(v):
+            out.append(V("C15", grp, nm, "status", case["tags"], line, "no finite result: %s" % r[:60], float("inf"), 0))
+            continue
+        Tm = g.T(mpl(v))
+        if expect == "A":
+            d = oracle.maxdiff(Tm, TA)
+            if d > tol:
+                out.append(V("C15", grp, nm, "t=0", case["tags"], line, "interpolate(A,B,0) != A", d, tol))
+        elif expect == "B":
+            d = oracle.maxdiff(Tm, TB)
+            if d > tol:
+                out.append(V("C15", grp, nm, "t=1", case["tags"], line, "interpolate(A,B,1) != B", d, tol))
+        elif expect == "geodesic":
+            L = g.log(mp.inverse(TA) * TB)
+            ref = TA * g.exp([mpf(t) * x for x in L])
+            d = oracle.maxdiff(Tm, ref)
+            if d > tol:
+                out.append(V("C15", grp, nm, "geodesic", case["tags"], line, "slerp(A,B,t) != A exp(t log(A^-1 B))", d, tol))
+    return out
+
+
+def j_c15phi(case, resps):
+    out = []
+    grp = case["group"]
+    vals = {}
+    for (m, t), line, r in zip(case["plan"], case["reqs"], resps):
+        v, e = parse(r)
+        if m not in (1, 2, 3, 4):
+            if v is not None:
+                out.append(V("C15", grp, "phi", "status", case["tags"], line, "unsupported degree %d accepted" % m, float("inf"), 0))
+            continue
+        if v is None:
+            out.append(V("C15", grp, "phi", "status", case["tags"], line, "phi raised: %s" % r[:40], float("inf"), 0))
+            continue
+        vals.setdefault(m, []).append((t, v[0], line))
+    for m, lst in vals.items():
+        lst.sort()
+        for t, v, line in lst:
+            if t == 0.0 and v != 0.0:
+                out.append(V("C15", grp, "phi", "phi(0)", case["tags"], line, "phi(0) != 0", abs(v), 0))
+            if t == 1.0 and abs(v - 1.0) > 1e-12:
+                out.append(V("C15", grp, "phi", "phi(1)", case["tags"], line, "phi(1) != 1", abs(v - 1), 1e-12))
+        for (t0, v0, _), (t1, v1, line) in zip(lst, lst[1:]):
+            if v1 < v0 - 1e-13:
+                out.append(V("C15", grp, "phi", "monotone", case["tags"], line, "phi_%d decreases between t=%r and %r" % (m, t0, t1), v0 - v1, 1e-13))
+    return out
+
+
+def s2_c16(case, resps):
+    """stage 2: the averages of the cloud, of the reordered cloud, of the left/right translated clouds"""
+    grp = case["group"]
+    R = REG[grp].repsize
+    n = case["n"]
+    pts = case["pts"]
+    comp = []
+    for r in resps:
+        v, e = parse(r)
+        if v is None:
+            return []
+        comp.append(v[:R])
+    left, right = comp[:n], comp[n:2 * n]
+    perm = case["perm"]
+    shuffled = [pts[i] for i in perm]
+    flat = lambda P: [c for p in P for c in p]
+    out = []
+    for op in case["ops"]:
+        for P in (pts, shuffled, left, right):
+            out.append(gen.req(True, "o", grp, op, 0, [case["eps"]] + flat(P), [20]))
+    out.append(gen.req(True, "o", grp, "log", 0, pts[0]))      # keeps the protocol honest (non-empty)
+    return out
+
+
+def j_c16(case, resps):
+    g = REG[case["group"]]
+    grp = case["group"]
+    n, pts, Z = case["n"], case["pts"], case["Z"]
+    out = []
+    if len(resps) < 2 * n + 4 * len(case["ops"]):
+        return [V("C16", grp, "avg", "status", case["tags"], case["reqs"][0], "pre-stage compose failed", float("inf"), 0)]
+    TZ = g.T(mpl(Z))
+    Tp = [g.T(mpl(p)) for p in pts]
+    s = lin_scale(grp, Z, *pts)
+    k = 2 * n
+    sq = math.sqrt(gen.EPS)
+    for op in case["ops"]:
+        res = []
+        for j in range(4):
+            v, e = parse(resps[k + j])
+            if v is None or not fin(v):
+                out.append(V("C16", grp, op, "status", case["tags"], case["reqs"][k + j], "no finite result: %s" % resps[k + j][:60], float("inf"), 0))
+                res = None
+                break
+            res.append(v)
+        line = case["reqs"][k]
+        k += 4
+        if res is None:
+            continue
+        m, mperm, mleft, mright = res
+        # validity of the returned element
+        nrm = _rot_norm(grp, m)
+        if abs(nrm - 1.0) >= gen.EPS:
+            out.append(V("C16", grp, op, "valid", case["tags"], line, "average is not a valid element", abs(nrm - 1), gen.EPS))
+        Tm = g.T(mpl(m))
+        if case["identical"]:
+            d = oracle.maxdiff(Tm, Tp[0])
+            if d > 1e-9 * s:
+                out.append(V("C16", grp, op, "identical", case["tags"], line, "average of identical points is not that point", d, 1e-9 * s))
+            continue
+        if op != "avg_w":
+            Tmi = mp.inverse(Tm)
+            acc = [mpf(0)] * g.dof
+            for T_ in Tp:
+                L = g.log(Tmi * T_)
+                acc = [a + b for a, b in zip(acc, L)]
+            resid = max(abs(a) / n for a in acc)
+            tol = 10 * sq * s
+            if resid > tol:
+                out.append(V("C16", grp, op, "stationary", case["tags"], line, "mean of log(m^-1 X_i) not ~0", resid, tol))
+        tolq = 1e-6 * s * s
+        d = oracle.maxdiff(g.T(mpl(mperm)), Tm)
+        if d > tolq * (100 if op == "avg_w" else 1):      # "1e-4" for the weighted average
+            out.append(V("C16", grp, op, "order", case["tags"], case["reqs"][k - 3], "average depends on the order of the points", d, tolq))
+        d = oracle.maxdiff(g.T(mpl(mleft)), TZ * Tm)
+        if d > tolq * s:
+            out.append(V("C16", grp, op, "left-equivariance", case["tags"], case["reqs"][k - 2], "avg(Z X_i) != Z avg(X_i)", d, tolq * s))
+        if op != "avg_w":
+            d = oracle.maxdiff(g.T(mpl(mright)), Tm * TZ)
+            if d > tolq * s:
+                out.append(V("C16", grp, op, "right-equivariance", case["tags"], case["reqs"][k - 1], "avg(X_i Z) != avg(X_i) Z", d, tolq * s))
+    return out
+
+
+def _rot_norm(grp, c):
+    i = 0
+    for kind, n in gen.GROUPS[grp]["rep"]:
+        if kind in ("complex", "quat"):
+            return math.sqrt(sum(x * x for x in c[i:i + n]))
+        i += n
+    return 1.0
+
+
+def j_c16empty(case, resps):
+    out = []
+    for line, r in zip(case["reqs"], resps):
+        if not r.startswith("err"):
+            out.append(V("C16", case["group"], line.split()[3], "empty", case["tags"], line, "empty point set did not raise", float("inf"), 0))
+    return out
+
+
+def _binom(n, k):
+    return math.comb(n, k)
+
+
+def j_c17(case, resps):
+    """index structure on the trajectory e_0..e_{N-1} of R^16 (De Casteljau is linear there, so each
+    curve point is the vector of weights with which the inputs were read)"""
+    N, d, k, cl = case["N"], case["d"], case["k"], case["closed"]
+    line, r = case["reqs"][0], resps[0]
+    out = []
+    grp = "R16"
+    v, e = parse(r)
+    should_raise = N < 3 or d > N or k == 0
+    if should_raise:
+        if v is not None:
+            out.append(V("C17", grp, "decasteljau", "status", case["tags"], line, "invalid (N=%d,d=%d,k=%d) accepted" % (N, d, k), float("inf"), 0))
+        return out
+    if v is None or not fin(v):
+        return [V("C17", grp, "decasteljau", "status", case["tags"], line, "no finite result: %s" % r[:60], float("inf"), 0)]
+    segk = k if d == 2 else k * d
+    nwin = (N - 1) // (d - 1) + (1 if cl else 0)
+    npts = len(v) // 16
+    if len(v) % 16 or npts != nwin * segk:
+        return [V("C17", grp, "decasteljau", "count", case["tags"], line,
+                  "%d curve points, expected %d windows x %d" % (npts, nwin, segk), abs(npts - nwin * segk), 0)]
+    for w in range(nwin):
+        if w < (N - 1) // (d - 1):
+            idx = [w * (d - 1) + j for j in range(d)]
+        else:
+            last = w * (d - 1)
+            idx = list(range(last, N)) + list(range(0, d - (N - last)))
+        for t in range(1, segk + 1):
+            p = v[(w * segk + t - 1) * 16:(w * segk + t) * 16]
+            u = t / segk
+            ref = [0.0] * 16
+            for j, i in enumerate(idx):
+                ref[i] += _binom(d - 1, j) * (1 - u) ** (d - 1 - j) * u ** j
+            err = max(abs(a - b) for a, b in zip(p, ref))
+            if err > 1e-12:
+                out.append(V("C17", grp, "decasteljau", "window", case["tags"], line,
+                             "window %d point %d: weights are not the Bernstein weights of control points %s" % (w, t, idx), err, 1e-12))
+                return out
+        p = v[(w * segk + segk - 1) * 16:(w * segk + segk) * 16]
+        if any(abs(p[i] - (1.0 if i == idx[-1] else 0.0)) > 1e-13 for i in range(16)):
+            out.append(V("C17", grp, "decasteljau", "join", case["tags"], line, "last curve point of window %d is not its last control point" % w, 1, 1e-13))
+    return out
+
+
+def j_c17g(case, resps):
+    """random trajectories on a group: last point of each window = last control point; degree 2 = slerp"""
+    g = REG[case["group"]]
+    grp = case["group"]
+    N, d, k, cl = case["N"], case["d"], case["k"], case["closed"]
+    pts = case["pts"]
+    line, r = case["reqs"][0], resps[0]
+    v, e = parse(r)
+    if v is None or not fin(v):
+        return [V("C17", grp, "decasteljau", "status", case["tags"], line, "no finite result: %s" % r[:60], float("inf"), 0)]
+    R = g.repsize
+    segk = k if d == 2 else k * d
+    nwin = (N - 1) // (d - 1) + (1 if cl else 0)
+    out = []
+    if len(v) != nwin * segk * R:
+        return [V("C17", grp, "decasteljau", "count", case["tags"], line, "wrong number of curve points", abs(len(v) // R - nwin * segk), 0)]
+    s = lin_scale(grp, *pts)
+    for w in range(nwin):
+        if w < (N - 1) // (d - 1):
+            lastidx = w * (d - 1) + d - 1
+            first = w * (d - 1)
+        else:
+            last = w * (d - 1)
+            lastidx = (d - (N - last)) - 1 if d - (N - last) > 0 else N - 1
+            first = last
+        p = v[(w * segk + segk - 1) * R:(w * segk + segk) * R]
+        dd = oracle.maxdiff(g.T(mpl(p)), g.T(mpl(pts[lastidx])))
+        if dd > 1e-8 * s * s:
+            out.append(V("C17", grp, "decasteljau", "join", case["tags"], line, "window %d does not end at its last control point" % w, dd, 1e-8 * s * s))
+        if d == 2:
+            TA, TB = g.T(mpl(pts[first])), g.T(mpl(pts[lastidx]))
+            L = g.log(mp.inverse(TA) * TB)
+            for t in range(1, segk + 1):
+                q = v[(w * segk + t - 1) * R:(w * segk + t) * R]
+                ref = TA * g.exp([mpf(t) / segk * x for x in L])
+                dd = oracle.maxdiff(g.T(mpl(q)), ref)
+                if dd > 1e-8 * s * s:
+                    out.append(V("C17", grp, "decasteljau", "geodesic", case["tags"], line, "degree-2 curve is not the geodesic of window %d" % w, dd, 1e-8 * s * s))
+                    break
+    return out
+
+
+STAGE2 = {"logexp": s2_logexp, "c04": s2_c04, "c16": s2_c16}
+JUDGES = {"c07": j_c07, "c04": j_c04, "c15": j_c15, "c15phi": j_c15phi, "c16": j_c16, "c16empty": j_c16empty,
+          "c17": j_c17, "c17g": j_c17g, "c01": j_c01, "c02": j_c02, "c03a": j_c03_explog, "c03b": j_c03_logexp2,
           "c05": j_c05, "c06": j_c06, "c06adj": j_c06_adj}
 
 
@@ -609,6 +871,85 @@ def cases(prop, r, group, n, dbg=True):
                 p, t2 = gen.point(r, group)
                 c.update(X=X, p=p, tags=[op] + t1 + t2, reqs=[gen.req(dbg, "o", group, op, 3, X + p)])
             cs.append(c)
+    return cs
+
+
+def cases_algo(prop, r, group, n, exe):
+    """cases for the algorithm properties (need the implementation to build point clouds)"""
+    import l1
+    cs = []
+    dbg = True
+    if prop == "C15":
+        for _ in range(n):
+            A, ta_ = gen.element(r, group, norm="exact", lin_only=["zero", "unit", "large"])
+            B, tb_ = gen.element(r, group, norm="exact", lin_only=["zero", "unit", "large"])
+            va = l1.small_tangent(r, group, r.choice([0.0, 0.5, 3.0]))
+            vb = l1.small_tangent(r, group, r.choice([0.0, 0.5, 3.0]))
+            plan, reqs = [], []
+            tin = r.random()
+            for t, ex in ((0.0, "A"), (1.0, "B"), (tin, "geodesic"), (-1e-9, "raise"), (1.0000001, "raise"), (float("nan"), "raise")):
+                plan.append(("slerp", t, ex))
+                reqs.append(gen.req(dbg, "o", group, "interp_slerp", 0, A + B + [t]))
+            for t, ex in ((0.0, "A"), (1.0, "B"), (-0.5, "raise"), (2.0, "raise")):
+                plan.append(("cubic", t, ex))
+                reqs.append(gen.req(dbg, "o", group, "interp_cubic", 0, A + B + [t] + va + vb))
+            for m in (1, 2, 3, 4):
+                for t, ex in ((0.0, "A"), (1.0, "B"), (-0.5, "raise")):
+                    plan.append(("smooth%d" % m, t, ex))
+                    reqs.append(gen.req(dbg, "o", group, "interp_smooth", 0, A + B + [t] + va + vb, [m]))
+            for m in (0, 5, 7):
+                plan.append(("smooth%d" % m, 0.5, "raise"))
+                reqs.append(gen.req(dbg, "o", group, "interp_smooth", 0, A + B + [0.5] + va + vb, [m]))
+            cs.append(dict(prop=prop, group=group, kind="c15", reqs=reqs, plan=plan, tags=ta_ + tb_, A=A, B=B))
+        plan, reqs = [], []
+        grid = [0.0, 1.0] + sorted(r.random() for _ in range(40))
+        for m in (1, 2, 3, 4, 0, 5, 6, -1, 100):
+            for t in (grid if m in (1, 2, 3, 4) else [0.5]):
+                plan.append((m, t))
+                reqs.append(gen.req(dbg, "o", group, "phi", 0, [t], [m]))
+        cs.append(dict(prop=prop, group=group, kind="c15phi", reqs=reqs, plan=plan, tags=["phi"]))
+    elif prop == "C16":
+        ops = ["avg_bi", "avg_w", "avg_fl", "avg_fr"]
+        for _ in range(n):
+            cnt = r.choice([1, 2, 3, 5, 8, 13, 21, 34, 50])
+            identical = r.random() < 0.15
+            radius = 0.0 if identical else r.choice([1e-6, 0.05, 0.3, 0.5])
+            X, pts, tags = l1.make_points(exe, r, group, cnt, radius, dbg, lin_only=("zero", "unit"))
+            Z, tz = gen.element(r, group, norm="exact", lin_only=["zero", "unit"])
+            perm = list(range(cnt))
+            r.shuffle(perm)
+            reqs = [gen.req(dbg, "o", group, "compose", 0, Z + p) for p in pts] + \
+                   [gen.req(dbg, "o", group, "compose", 0, p + Z) for p in pts]
+            cs.append(dict(prop=prop, group=group, kind="c16", stage2="c16", reqs=reqs, n=cnt, pts=pts, Z=Z, perm=perm,
+                           ops=ops, eps=gen.EPS, identical=identical, tags=["n%d" % cnt, "radius:%g" % radius] + tags))
+        cs.append(dict(prop=prop, group=group, kind="c16empty", tags=["empty"],
+                       reqs=[gen.req(dbg, "o", group, op, 0, [gen.EPS], [20]) for op in ops]))
+    elif prop == "C17":
+        for _ in range(n):
+            N = r.choice([3, 4, 5, 6, 7, 8, 10, 12])
+            d = r.choice([2, 2, 3, 4, N]) if N > 3 else r.choice([2, 3])
+            d = min(d, N)
+            k = r.choice([1, 2, 3])
+            cl = r.choice([0, 1])
+            X, pts, tags = l1.make_points(exe, r, group, N, 0.6, dbg, lin_only=("zero", "unit"))
+            cs.append(dict(prop=prop, group=group, kind="c17g", N=N, d=d, k=k, closed=bool(cl), pts=pts,
+                           tags=["N%d" % N, "d%d" % d, "k%d" % k, "cl%d" % cl] + tags,
+                           reqs=[gen.req(dbg, "o", group, "decasteljau", 0, [c for p in pts for c in p], [d, k, cl])]))
+    return cs
+
+
+def cases_c17_box(maxN=16, maxk=4):
+    """the exhaustive box of the property: N<=16, 2<=d<=N(+1), k<=4 (and 0), open/closed,
+    trajectory e_0..e_{N-1} in R^16"""
+    cs = []
+    for N in range(0, maxN + 1):
+        for d in range(2, max(N, 2) + 2):
+            for k in range(0, maxk + 1):
+                for cl in (0, 1):
+                    pts = [[1.0 if j == i else 0.0 for j in range(16)] for i in range(N)]
+                    cs.append(dict(prop="C17", group="R16", kind="c17", N=N, d=d, k=k, closed=bool(cl),
+                                   tags=["box", "N%d" % N, "d%d" % d, "k%d" % k, "cl%d" % cl],
+                                   reqs=[gen.req(True, "o", "R16", "decasteljau", 0, [c for p in pts for c in p], [d, k, cl])]))
     return cs
 
 
